@@ -191,7 +191,9 @@ theorem final_eq (z : Nat) (m : Hmm) (obs : List Nat) (h : obs ≠ []) (vals' : 
     intro k hk
     have e2 : Rs.get2 vals' (obs.length - 1) k = Res.ok (ix (fcol m obs (obs.length - 1)) k) := by
       rw [get2_ok hlast (by rw [fcol_length]; exact hk), ix_eq_getElem (by rw [fcol_length]; exact hk)]
-    simp [forward_map2, e1, e2]
+    first
+      | (simp [forward_map2, e1, e2]; done)
+      | (simp [forward_map2, e1, e2, Nat.mul_comm]; done)
   refine ⟨mapM_range_ok m.S hm, ?_, table_ext hinv.1 hinv.2.1⟩
   have := fwdFrom_fcol m obs (obs.length - 1) (by omega)
   rw [show obs.length - 1 + 1 = obs.length by omega, List.drop_length] at this
